@@ -31,7 +31,11 @@ class AbstractDenseTimeOfflineInterpreter(AbstractOfflineInterpreter, DenseTimeI
         #rob = self.visitAst(self.ast)[0]
 
         # reset var_object_dict()
+        # (an output object with fields stays what it is: the object may be an online monitor too)
+        out = self.ast.var_object_dict.get(self.ast.out_var)
         self.ast.var_object_dict = self.ast.var_object_dict.fromkeys(self.ast.var_object_dict, [])  #TODO I did not understant it.
+        if self.ast.out_var_field:
+            self.ast.var_object_dict[self.ast.out_var] = out
 
         return rob[len(rob)-1]
 
